@@ -465,6 +465,17 @@ func c17EditRegions(r *an.Run) {
 			return ""
 		}
 		op := cmp.Op.String()
+		// a group without comments (emptied with the code its comments were in, F23) has no position
+		if lc, isLen := cmp.X.(*ssa.Call); isLen && an.IsCallTo(lc, "builtin:len") && strings.HasSuffix(an.Path(lc.Call.Args[0]), ".List") {
+			if k, isc := an.ConstInt(cmp.Y); isc && k == 0 {
+				switch op {
+				case "==":
+					return "empty"
+				case "!=", ">":
+					return "nonempty"
+				}
+			}
+		}
 		switch {
 		case isGroupEdge(cmp.X, "End") && isNodeEdge(cmp.Y, "Pos") && op == "<=", isNodeEdge(cmp.X, "Pos") && isGroupEdge(cmp.Y, "End") && op == ">=":
 			return "before"
@@ -508,6 +519,13 @@ func c17EditRegions(r *an.Run) {
 			if aft[b] {
 				gotA = true
 			}
+		}
+		if e, known := p.Atoms["empty"]; known && e || func() bool { ne, known := p.Atoms["nonempty"]; return known && !ne }() {
+			// an emptied group is neither leading nor trailing
+			if gotB || gotA {
+				good = false
+			}
+			continue
 		}
 		wb, kb := p.Atoms["before"]
 		wa, ka := p.Atoms["after"]
